@@ -466,7 +466,13 @@ fn obs_inproc_isolated(
 ) -> (LaunchObs, CallLog) {
     // divergent programs are the point of one small family: do not wait long for them
     let cap = if spec.family == "W12-divergent" { envs.exec.cap.min(std::time::Duration::from_millis(1500)) } else { envs.exec.cap };
+    let crash_log = capture_dir.join("child.stderr");
+    let _ = fs::create_dir_all(capture_dir);
+    let _ = fs::remove_file(&crash_log);
     let end = crate::sim_fork::in_child(cap, || {
+        // whatever the Rust runtime says when this process dies (stack overflow, abort) goes
+        // where the parent can read it
+        sim_inproc::redirect_stderr_to(&crash_log);
         sim_inproc::EVALUATE_EVEN_IF_CAPPED.store(true, std::sync::atomic::Ordering::Relaxed);
         let mut child_orders = vec![];
         let mut child_mismatches = 0u64;
@@ -510,12 +516,20 @@ fn obs_inproc_isolated(
             *mirror_mismatches += v.get("mismatches").and_then(Value::as_u64).unwrap_or(0);
             (obs, log)
         }
-        crate::sim_fork::ChildEnd::Died(how) => (
+        crate::sim_fork::ChildEnd::Died(how) => {
             // e.g. "signal 6": the launch exhausted its stack; handled like a signal ending of
-            // the real binary (equal endings compare equal, unequal ones are inconclusive)
-            LaunchObs { abnormal: Some(how.clone()), fields: vec![("status".to_owned(), how)] },
-            CallLog::default(),
-        ),
+            // the real binary. What the runtime said is kept only as far as it is the same in
+            // every launch (the overflow notice itself), so that equal endings compare equal.
+            let said = fs::read_to_string(&crash_log).unwrap_or_default();
+            let notice = if said.contains("has overflowed its stack") { "has overflowed its stack" } else { "" };
+            (
+                LaunchObs {
+                    abnormal: Some(how.clone()),
+                    fields: vec![("status".to_owned(), how), ("stderr".to_owned(), notice.to_owned())],
+                },
+                CallLog::default(),
+            )
+        }
         crate::sim_fork::ChildEnd::TimedOut => (
             LaunchObs { abnormal: Some("timeout".to_owned()), fields: vec![("status".to_owned(), "timeout".to_owned())] },
             CallLog::default(),
@@ -674,8 +688,9 @@ pub fn run_spec(spec: &Spec, envs: &Envs, scratch_tag: &str, stop_at_first: bool
                 || out.obs[i].abnormal.is_some()
                 || starved(&out.obs[0])
                 || starved(&out.obs[i]);
-            // One exception: in the exec tier, one launch exhausting its stack (the runtime says
-            // so) while the other, given exactly the same work, ends normally. Nothing the plans
+            // One exception: in the exec tier and in process-per-launch groups, one launch
+            // exhausting its stack (the runtime says so) while the other, given exactly the same
+            // work, ends normally. Nothing the plans
             // vary touches the stack of the thread gram does its work on (an exact-size mapping),
             // so on a tree where that holds the two cannot differ; if they do, the work has moved
             // to a stack whose usable size depends on the launch (S54: `check` on the main
@@ -685,7 +700,7 @@ pub fn run_spec(spec: &Spec, envs: &Envs, scratch_tag: &str, stop_at_first: bool
                 o.abnormal.as_deref() == Some("signal 6") && o.field("stderr").contains("has overflowed its stack")
             };
             let normal = |o: &LaunchObs| o.abnormal.is_none() && !starved(o);
-            let stack_verdict_differs = spec.tier == Tier::Exec
+            let stack_verdict_differs = (spec.tier == Tier::Exec || spec.isolation == "process")
                 && ((overflowed(&out.obs[0]) && normal(&out.obs[i])) || (normal(&out.obs[0]) && overflowed(&out.obs[i])));
             if stack_verdict_differs {
                 out.status = "violation".to_owned();
